@@ -49,6 +49,16 @@ def items_of(v):
     raise Unsupported('items_of %r' % (v,))
 
 
+def elem_refs(v):
+    """references to the elements of a Vec / slice / array; a sub-slice taken by a range index writes through to the vector it borrows from"""
+    t = deref(v)
+    if isinstance(t, SliceV) and t.base is not None and t.base is not t.items and t.off + len(t.items) <= len(t.base) \
+            and all(x is y for x, y in zip(t.items, t.base[t.off:t.off + len(t.items)])):
+        return [RefV(t.base, t.off + i) for i in range(len(t.items))]
+    xs = items_of(t)
+    return [RefV(xs, i) for i in range(len(xs))]
+
+
 def cint(it, v, what='value', fork=False):
     if isinstance(v, LazyV):
         v = v.as_int(64)
@@ -648,7 +658,7 @@ def _clone(it, c, a):
         return VecV([dcopy(x) for x in v.items])
     if isinstance(v, StringV):
         return StringV(list(v.b))
-    if isinstance(v, Agg):
+    if isinstance(v, (Agg, MapV)):
         return dcopy(v)
     return NotImplemented
 
@@ -772,8 +782,7 @@ def chars_gen(it, ch):
 
 @model('[]::iter', '[]::iter_mut', 'Vec::iter', 'Vec::iter_mut')
 def _iter(it, c, a):
-    xs = items_of(a[0])
-    return PyIter((RefV(xs, i) for i in range(len(xs))))
+    return PyIter(iter(elem_refs(a[0])))
 
 
 @model('Vec::drain')
@@ -788,11 +797,12 @@ def _drain(it, c, a):
 @tmodel('IntoIterator', 'into_iter')
 def _into_iter(it, c, a):
     v = a[0]
+    if isinstance(v, SliceV):
+        return PyIter(iter(elem_refs(v)))          # a slice value IS a borrow (&[T] / &mut [T])
     if isinstance(v, RefV):
         t = v.get()
         if isinstance(t, (VecV, SliceV)) or (isinstance(t, Agg) and t.kind == 'array'):
-            xs = items_of(t)
-            return PyIter((RefV(xs, i) for i in range(len(xs))))
+            return PyIter(iter(elem_refs(t)))
         if isinstance(t, MapV):
             return as_iter(it, t)
     return persist(it, v)
@@ -817,8 +827,7 @@ def persist(it, v):
     if isinstance(v, RefV) and (isinstance(t, (VecV, SliceV, MapV)) or (isinstance(t, Agg) and t.kind == 'array')):
         if isinstance(t, MapV):
             return as_iter(it, t)
-        xs = items_of(t)
-        return PyIter((RefV(xs, i) for i in range(len(xs))))
+        return PyIter(iter(elem_refs(t)))
     return as_iter(it, t)
 
 
@@ -1383,6 +1392,31 @@ def _as_bytes(it, c, a):
     return SliceV(str_bytes(v))
 
 
+@model('str::bytes', 'String::bytes')
+def _str_bytes_iter(it, c, a):
+    return PyIter(iter(list(str_bytes(a[0]))))
+
+
+@model('u8::is_ascii')
+def _u8_is_ascii(it, c, a):
+    return it.binop('Lt', deref(a[0]), IntV(0x80, 8, 0))
+
+
+@model('u8::is_ascii_alphanumeric', 'u8::is_ascii_uppercase', 'u8::is_ascii_lowercase', 'u8::is_ascii_digit', 'u8::is_ascii_alphabetic')
+def _u8_class(it, c, a):
+    x = deref(a[0]); name = c.split('::')[-1].split('(')[0]
+    rng = lambda lo, hi: it.binop('BitAnd', it.binop('Ge', x, IntV(lo, 8, 0)), it.binop('Le', x, IntV(hi, 8, 0)))
+    up, lo, dg = rng(0x41, 0x5A), rng(0x61, 0x7A), rng(0x30, 0x39)
+    if 'uppercase' in name:
+        return up
+    if 'lowercase' in name:
+        return lo
+    if 'digit' in name:
+        return dg
+    al = it.binop('BitOr', up, lo)
+    return al if 'alphabetic' in name else it.binop('BitOr', al, dg)
+
+
 @model('str::chars')
 def _chars(it, c, a):
     return PyIter(chars_gen(it, CharsV(deref(a[0]))))
@@ -1479,7 +1513,7 @@ def str_slice(it, b, lo, hi):
 def text_range_bounds(it, r):
     r = deref(r)
     if isinstance(r, Agg) and r.name == 'TextRange':
-        return cint(it, r.fields[0].fields[0]), cint(it, r.fields[1].fields[0])
+        return cint(it, r.fields[0].fields[0], fork=True), cint(it, r.fields[1].fields[0], fork=True)
     raise Unsupported('text range %r' % (r,))
 
 
